@@ -254,7 +254,9 @@ def split_runs(tracefile, nchunks, outdir, reset_key="reset"):
 
 def _validate_file(pid, module, cfg, path, idx, timeout):
     wd = workdir(pid)
-    rc, out, wall = _java(module + ".tla", cfg, os.path.join(wd, "meta_%s_%d" % (module, idx)), 1,
+    # the metadir is derived from the trace file so that concurrent validations never share one
+    mtag = hashlib.blake2b(path.encode(), digest_size=5).hexdigest()
+    rc, out, wall = _java(module + ".tla", cfg, os.path.join(wd, "meta_%s_%d_%s" % (module, idx, mtag)), 1,
                           env={"TRACE": path}, xmx="3g", dfs=True, timeout=timeout)
     return rc, out
 
@@ -308,13 +310,13 @@ def _diagnose(out, nlines):
     return -1, "TLC error: " + out[-1500:]
 
 
-def validate_traces(pid, module, cfg_body, tracefile, constants=None, nchunks=TRACE_CHUNKS, max_violations=8, timeout=1800, max_soft=200):
+def validate_traces(pid, module, cfg_body, tracefile, constants=None, nchunks=TRACE_CHUNKS, max_violations=8, timeout=1800, tag="", max_soft=200):
     """Validate every run of an NDJSON trace file against Trace_<module>.  Returns
     dict(runs, events, rejected=[{run:[events], at:int, reason:str}])."""
     wd = workdir(pid)
     cfg = os.path.join(wd, module + ".cfg")
     write_cfg(cfg, cfg_body, constants)
-    cdir = os.path.join(wd, "chunks_" + module)
+    cdir = os.path.join(wd, "chunks_" + module + tag)
     shutil.rmtree(cdir, ignore_errors=True)
     chunks, nruns, nevents = split_runs(tracefile, nchunks, cdir)
     if nruns == 0:
@@ -328,6 +330,7 @@ def validate_traces(pid, module, cfg_body, tracefile, constants=None, nchunks=TR
         cur_path = path
         rounds = 0
         hard = 0
+        retried = False
         while remaining and hard < max_violations:
             rounds += 1
             n = sum(len(r) for r in remaining)
@@ -340,7 +343,11 @@ def validate_traces(pid, module, cfg_body, tracefile, constants=None, nchunks=TR
                 break
             at, reason = d
             if at < 1:
-                return ("error:" + reason, rejected)
+                # an unreadable TLC run (JVM killed / starved on a loaded machine): try once more before giving up
+                if retried:
+                    return ("error:" + reason, rejected)
+                retried = True
+                continue
             # locate the run containing line `at`
             pos = 0
             k = 0
